@@ -75,6 +75,23 @@ func (f *Frame) callExtern(v ssa.Value, fn *ssa.Function, argVals []ssa.Value, a
 		pos := mk(SBool, "(and (fp.isInfinite %[1]s) (fp.isPositive %[1]s))", x.S)
 		neg := mk(SBool, "(and (fp.isInfinite %[1]s) (fp.isNegative %[1]s))", x.S)
 		f.setVal(v, Or(And(Le(Zero, sg), pos), And(Le(sg, Zero), neg)))
+	case "(*bytes.Buffer).WriteByte", "(*strings.Builder).WriteByte", "(*bytes.Buffer).WriteRune", "(*strings.Builder).WriteRune":
+		f.bufGrow(args[0], nil, true)
+		f.setResults(v, mkRes())
+	case "(*bytes.Buffer).WriteString", "(*strings.Builder).WriteString":
+		n := App(SInt, "strlen", args[1])
+		f.bufGrow(args[0], &n, false)
+		f.setResults(v, mkRes())
+	case "(*bytes.Buffer).Write", "(*strings.Builder).Write":
+		n := SLen(args[1])
+		f.bufGrow(args[0], &n, false)
+		f.setResults(v, mkRes())
+	case "(*bytes.Buffer).String", "(*strings.Builder).String":
+		res := mkRes()
+		f.enc.factAbout(res[0], Eq(App(SInt, "strlen", res[0]), Select(f.stGet("BUF_len", ArrSort(SInt, SInt)), args[0])))
+		f.setResults(v, res)
+	case "(*bytes.Buffer).Len", "(*strings.Builder).Len":
+		f.setVal(v, Select(f.stGet("BUF_len", ArrSort(SInt, SInt)), args[0]))
 	case "strings.HasPrefix":
 		// exact for a constant prefix: the string is long enough and starts with those bytes
 		if c, ok := argVals[1].(*ssa.Const); ok && c.Value != nil {
@@ -116,6 +133,21 @@ func (f *Frame) callExtern(v ssa.Value, fn *ssa.Function, argVals []ssa.Value, a
 			f.setResults(v, res)
 		}
 	}
+}
+
+// bufGrow: length-level model of bytes.Buffer / strings.Builder: BUF_len[buffer] grows by n bytes (by at least one
+// and at most four for a rune / byte write when atLeastOne is set and n is nil).
+func (f *Frame) bufGrow(buf T, n *T, atLeastOne bool) {
+	sort := ArrSort(SInt, SInt)
+	cur := f.stGet("BUF_len", sort)
+	var inc T
+	if n != nil {
+		inc = *n
+	} else {
+		inc = f.enc.declConst(f.enc.fresh(f.sym("bufinc")), SInt)
+		f.enc.factAbout(inc, And(Le(IntLit(1), inc), Le(inc, IntLit(4))))
+	}
+	f.stSet("BUF_len", Store(cur, buf, Add(Select(cur, buf), inc)))
 }
 
 func sortsOf(ts []T) []Sort {
